@@ -13,6 +13,8 @@ from graphql.execution.collect_fields import collect_fields
 from graphql.execution.values import get_variable_values
 
 BUILTIN = {"String": str, "ID": str, "Int": int, "Float": float, "Boolean": bool}
+# custom scalars configured with a pydantic-native type in the case under test: GraphQL name -> (python type, behaves-like builtin)
+CONFIGURED = {}
 
 
 def scalar_ok(t, v):
@@ -213,7 +215,7 @@ def corruptions(schema, doc, data):
             continue
         t = st.type
         nn = t.of_type if is_non_null_type(t) else t
-        custom = is_leaf_type(nn) and not is_enum_type(nn) and nn.name not in BUILTIN
+        custom = is_leaf_type(nn) and not is_enum_type(nn) and nn.name not in BUILTIN and nn.name not in CONFIGURED
         if cur is not None:
             yield ("null", path, set_at(data, path, None), True if (is_non_null_type(t) and not st.conditional) else None)
         if st.in_dict:
@@ -228,7 +230,7 @@ def corruptions(schema, doc, data):
             wit = [["x"], {"k": "x"}]
             if is_enum_type(nn):
                 wit += ["x__not_a_member", 7]
-            elif nn.name in ("Int", "Float"):
+            elif nn.name in ("Int", "Float") or CONFIGURED.get(nn.name, (None, None))[1] == "Int":
                 wit += ["x"]
             elif nn.name == "Boolean":
                 wit += ["x", 7]
@@ -306,7 +308,7 @@ def annotation_matches(ann, t, conditional):
             return f"expected enum class {inner_t.name}, got {inner}"
         return None
     if is_leaf_type(inner_t):
-        want = BUILTIN.get(inner_t.name, typing.Any)
+        want = BUILTIN.get(inner_t.name, CONFIGURED.get(inner_t.name, (typing.Any, None))[0])
         if inner is not want:
             return f"expected {want}, got {inner}"
         return None
